@@ -385,12 +385,13 @@ class Gen:
         st = self.regs[s]
         x = rng.random()
         if x < 0.2:
-            self.emit({'f': 'spec_scalar', 's': s, 'opname': rng.choice(['mul', 'add', 'sub', 'div']), 'x': rng.choice([2.0, 0.5, 3])},
+            opn = rng.choice(['mul', 'add', 'sub', 'div'])
+            self.emit({'f': 'spec_scalar', 's': s, 'opname': opn, 'x': 0.05 if opn == 'sub' else rng.choice([2.0, 0.5, 3])},
                       {'t': 'S', 'unit': st['unit'], 'flux': st['flux']})
         elif x < 0.4:
             s2 = self.spectrum()
             if self.regs[s2]['flux'] == st['flux']:
-                self.emit({'f': 'spec_bin', 's1': s, 's2': s2, 'opname': rng.choice(['mul', 'add', 'sub'])},
+                self.emit({'f': 'spec_bin', 's1': s, 's2': s2, 'opname': rng.choice(['mul', 'add'])},
                           {'t': 'S', 'unit': st['unit'], 'flux': st['flux']})
         elif x < 0.65:
             self.emit({'f': 'fn', 'name': 'sample', 'args': [s, self.arr('wv3')], 'unit': rng.choice(['nm', 'um', 'um'])},
